@@ -1104,6 +1104,11 @@ pub fn rich_observation(s: &State) -> u64 {
 
 /// C17/C18: par_iter() visits exactly the nodes of iter() (same references, same order),
 /// in dedicated rayon pools of 1, 2 and 16 threads.
+#[cfg(not(feature = "it-par"))]
+pub fn c17_par(_: &State) -> Vec<Failure> {
+    Vec::new()
+}
+
 #[cfg(feature = "it-par")]
 pub fn c17_par(s: &State) -> Vec<Failure> {
     use rayon::prelude::*;
@@ -1130,6 +1135,33 @@ pub fn c17_par(s: &State) -> Vec<Failure> {
             Ok((par, cnt, _)) => out.push(fail(C17 | C18, "par_iter", false, "par_iter", "-", "differs-from-iter",
                 format!("par_iter() in a pool of {} thread(s) visits {} nodes ({} by count()), iter() visits {}; same references in the same order: {}", [1, 2, 16][i], par.len(), cnt, seq.len(), par == seq))),
             Err(m) => out.push(fail(C17 | C18, "par_iter", false, "par_iter", "-", "panicked", format!("par_iter panicked: {m}"))),
+        }
+    }
+    out
+}
+
+/// Observers that depend only on which nodes are live by the history of calls (not on the
+/// shape of the forest): usable on a successor whose links the model cannot vouch for.
+pub fn liveness_observers(s: &State, target: Props) -> Vec<Failure> {
+    let mut out = Vec::new();
+    if s.obs.len() != s.model.count() || s.cur.len() != s.model.count() {
+        return out;
+    }
+    if target & C06 != 0 {
+        out.extend(c06(s));
+    }
+    if target & C11 != 0 {
+        out.extend(c11(s));
+    }
+    if target & C12 != 0 {
+        for x in s.model.removed_slots() {
+            let o = &s.obs[x];
+            for k in 0..5 {
+                if o.removed && o.links[k].is_some() {
+                    out.push(fail(C12, "removed-links", false, obs::LINK_NAMES[k], "removed", "removed-node-reports-link",
+                        format!("removed slot {} still reports {} = {}; arena: {}", x + 1, obs::LINK_NAMES[k], fmt_id(o.links[k]), fmt_obs(&s.obs))));
+                }
+            }
         }
     }
     out
@@ -1190,10 +1222,8 @@ pub fn judge_state(
     if t & C16 != 0 {
         out.extend(c16(s, &mut ctr.lockstep, profile, n_max, a_max));
     }
-    #[cfg(feature = "it-par")]
-    if t & (C17 | C18) != 0 {
-        out.extend(c17_par(s));
-    }
+    // c17_par is evaluated by the explorer on its main thread: calling into another rayon pool
+    // from a worker of this pool makes the worker run other tasks while it waits (unbounded nesting)
     let _ = (Outcome::Unit, ops::Op::NewNode);
     out
 }
